@@ -20,6 +20,18 @@ def main():
         if opts.get("dask_chunk_size"):
             import dask
             dask.config.set({"array.chunk-size": opts["dask_chunk_size"]})
+        if kind == "silixa-pair":
+            import dask
+            import xarray as xr
+            from dtscalibration import read_silixa_files
+            with dask.config.set(scheduler=opts.get("scheduler", "synchronous")):
+                a = read_silixa_files(directory=directory, silent=True, load_in_memory=opts.get("load_in_memory", True))
+                b = read_silixa_files(directory=opts["other"], silent=True, load_in_memory=opts.get("load_in_memory", True))
+                diff = (a["st"].data - b["st"].data)
+                cat = xr.concat([a[["st", "ast", "rst", "rast"]], b[["st", "ast", "rst", "rast"]]], dim="time")
+                out = {"diff": np.asarray(diff).tolist(), "cat": {k: np.asarray(cat[k].values).tolist() for k in cat.data_vars}, "b_tmp": np.asarray(b["tmp"].values).tolist()}
+            print("JSON:" + json.dumps(out))
+            return
         if kind == "apsensing":
             from dtscalibration import read_apsensing_files
             ds = read_apsensing_files(directory=directory, silent=True, load_in_memory=opts.get("load_in_memory", True), timezone_netcdf=opts.get("timezone_netcdf", "UTC"))
